@@ -94,6 +94,8 @@ InvViol(W, St) ==
     (IF C02_StartedProperly(St) THEN {} ELSE {<<"inv", "C02_StartedProperly">>}) \cup
     (IF C03_HoldUntilDue(St) THEN {} ELSE {<<"inv", "C03_HoldUntilDue">>}) \cup
     (IF C03_CompletedTiming(St) THEN {} ELSE {<<"inv", "C03_CompletedTiming">>}) \cup
+    (IF C03_ExactCompletion(W, St) THEN {} ELSE {<<"inv", "C03_ExactCompletion">>}) \cup
+    (IF C03_NotBeforePlan(St) THEN {} ELSE {<<"inv", "C03_NotBeforePlan">>}) \cup
     (IF C06_StarvedNeverRuns(St) THEN {} ELSE {<<"inv", "C06_StarvedNeverRuns">>}) \cup
     (IF C06_CancelClosure(St) THEN {} ELSE {<<"inv", "C06_CancelClosure">>}) \cup
     (IF C07_OneBranch(St) THEN {} ELSE {<<"inv", "C07_OneBranch">>})
